@@ -164,6 +164,42 @@ class C20Monitor(Monitor):
                 self.violate(w, "not_serialized_with_simulation", f"object={'criteria' if p.endswith('#criteria') else 'move'}|driver={w.sc['driver']}",
                              f"mc.to_dict() holds {got!r} for {p}")
         w.result.count("probe.serializations_checked")
+        self._restore(w, d)
+
+    def _restore(self, w, d):
+        """The dictionary the package wrote is read back: the user has registered his classes under the names his
+        to_dict() reports (register_class, replacing whatever an earlier definition left there), so the simulation must
+        be rebuilt with instances of exactly those classes."""
+        moves = {p: o for p, o in w.bare_objs.items() if not p.endswith("#criteria") and "." not in p}
+        crits = {p[:-9]: o for p, o in w.bare_objs.items() if p.endswith("#criteria")}
+        mcls = {type(o) for o in moves.values()}
+        ccls = {type(o) for o in crits.values()}
+        if len(mcls) > 1 or len(ccls) > 1 or not hasattr(type(w.mc), "from_dict"):
+            return  # two different user classes reporting one name: nothing to register unambiguously
+        from quansino.registry import register_class
+
+        for cls, nm in [(c, "BareMove") for c in mcls] + [(c, "BareCriteria") for c in ccls]:
+            register_class(cls, nm)
+        try:
+            mc2 = type(w.mc).from_dict(d)
+        except Exception as e:  # noqa: BLE001
+            from simkit.core import classify_exception
+
+            info = classify_exception(e)
+            self.violate(w, "restore_fails_with_user_objects", f"type={info['type']}|where={info['where']}|driver={w.sc['driver']}",
+                         "from_dict(to_dict()) raised with registered protocol-only user classes in the table:\n" + info["text"])
+            return
+        for name, obj in list(moves.items()) + [(n, o) for n, o in crits.items()]:
+            st = mc2.moves.get(name)
+            if st is None:
+                continue
+            got = st.move if name in moves and obj is moves.get(name) else st.criteria
+            if type(got) is not type(obj):
+                self.violate(w, "restored_with_another_class", f"object={'move' if obj is moves.get(name) else 'criteria'}|driver={w.sc['driver']}",
+                             f"entry {name}: the user's registered class is {type(obj).__name__} (id {id(type(obj))}), the rebuilt "
+                             f"simulation holds a {type(got).__name__} (id {id(type(got))})")
+        mc2.close()
+        w.result.count("probe.restores_checked")
 
 
 class C20(HistoryCampaign):
